@@ -6,11 +6,13 @@
 EXTENDS FixedString, TLC, Json
 CONSTANTS Char,        \* character codes used for contents and sources
           WildArgs,      \* TRUE: also generate calls outside the documented domain (C10)
-          BigVals,     \* codes (negative) of size_t values >= 2^31 used as positions / counts
+          BigCodes,    \* k in BigCodes: the size_t value with code -k (>= 2^31; 1 = SIZE_MAX = npos, 2 = SIZE_MAX - 1, ...)
+                       \* is used as position / count (cfg files cannot hold negative numbers)
           WholeLen     \* sources passed as a whole: all texts up to this length + one text per length up to L+2
 VARIABLES act, dead
 mcvars == <<vars, act, dead>>
 
+BigVals == {0 - k : k \in BigCodes}
 Strs(n) == UNION {[1..k -> Char] : k \in 0..n}
 C1 == SetMin(Char)
 C2 == SetMax(Char)
@@ -19,6 +21,7 @@ Wholes(maxlen) == {x \in Strs(WholeLen) \cup {Pat(k) : k \in 3..(L + 2)} : Len(x
 PartSrcs == {<<>>, <<C1>>, <<C1, C2>>, Pat(L + 1)}
 Pos1 == IF WildArgs THEN (0..(L + 1)) \cup BigVals ELSE 0..Len(s)           \* positions in this string
 Cnt1 == {0, 1, 2, L + 1} \cup BigVals \cup {NPos}                       \* counts in this string
+Cnt1Small == {0, 1} \cup BigVals \cup {NPos}
 Pos2(x) == IF WildArgs THEN (0..(Len(x) + 1)) \cup BigVals ELSE 0..Len(x)    \* positions in the source
 Cnt2 == {0, 1, 2, L + 1} \cup {NPos}
 RepCnt == (0..(L + 1)) \cup (IF WildArgs THEN BigVals ELSE {})
@@ -67,8 +70,10 @@ Calls ==
    \cup Fam("append", {"app"}, {0}, {0}, WholeSk \cup PartSk \cup {"cnt_ch", "cstr_cnt", "fsit", "selfit"})
    \cup Fam("append", {"pe"}, {0}, {0}, WholeSk \cup {"ch"})
    \cup Fam("sprintf", {"fmt"}, 0..3, {0}, {"str"})
-   \cup Fam("replace", {"pos_cnt"}, Pos1, Cnt1, WholeSk \cup PartSk \cup {"cnt_ch", "cstr_cnt"})
-   \cup Fam("replace", {"it_it"}, ItPos, 0..(L + 1), {"fsit", "selfit", "strit", "cstr_cnt", "cstr", "cnt_ch", "ilist"})
+   \cup Fam("replace", {"pos_cnt"}, Pos1, Cnt1, WholeSk \cup {"cnt_ch", "cstr_cnt"})
+   \cup Fam("replace", {"pos_cnt"}, Pos1, Cnt1Small, PartSk)
+   \* (iterators into the string itself as replacement are not generated: aliasing is not documented)
+   \cup Fam("replace", {"it_it"}, ItPos, 0..(L + 1), {"fsit", "strit", "cstr_cnt", "cstr", "cnt_ch", "ilist"})
    \cup Fam("swap", {"other"}, {0}, {0}, {"fs"})
    \cup Fam("swap", {"self"}, {0}, {0}, {"none"})
    \cup Fam("set", {"at", "idx", "it", "rit"}, IdxLegal \ {Len(s)}, {0}, {"ch"})
@@ -90,7 +95,8 @@ Calls ==
    \cup Fam("find_last_of", {"nopos"}, {NPos}, {0}, {"fs", "str", "cstr", "ch"})
    \cup Fam("find_last_not_of", {"nopos"}, {NPos}, {0}, {"fs", "str", "cstr", "ch"})
    \cup Fam("compare", {"whole"}, {0}, {NPos}, WholeSk)
-   \cup Fam("compare", {"pos_cnt"}, Pos1, Cnt1, WholeSk \cup {"fs_pos_cnt", "fs2_pos_cnt", "str_pos_cnt", "cstr_cnt"})
+   \cup Fam("compare", {"pos_cnt"}, Pos1, Cnt1, WholeSk \cup {"cstr_cnt"})
+   \cup Fam("compare", {"pos_cnt"}, Pos1, Cnt1Small, {"fs_pos_cnt", "fs2_pos_cnt", "str_pos_cnt"})
    \cup Fam("starts_with", {"none"}, {0}, {0}, WholeSk \cup {"ch"})
    \cup Fam("ends_with", {"none"}, {0}, {0}, WholeSk \cup {"ch"})
    \cup Fam("contains", {"none"}, {0}, {0}, WholeSk \cup {"ch"})
